@@ -1106,8 +1106,9 @@ def main(listenip_v6, listenip_v4,
                 raise e
 
     if not bound:
-        assert last_e
-        raise last_e
+        raise Fatal("Could not bind the redirector listeners on any "
+                    "candidate port (last error: %s). Use --listen to "
+                    "choose another address or port." % last_e)
     tcp_listener.listen(10)
     tcp_listener.print_listening("TCP redirector")
     if udp_listener:
@@ -1150,10 +1151,10 @@ def main(listenip_v6, listenip_v4,
                 else:
                     raise e
 
-        dns_listener.print_listening("DNS")
         if not bound:
-            assert last_e
-            raise last_e
+            raise Fatal("Could not bind the DNS listener on any candidate "
+                        "port (last error: %s)." % last_e)
+        dns_listener.print_listening("DNS")
     else:
         dnsport_v6 = 0
         dnsport_v4 = 0
